@@ -934,11 +934,9 @@ class Interp:
                 return b
             if b is _MISSING:
                 return a
-            try:
-                ta = self.truth(a) if not isinstance(a, (int, str)) or isinstance(a, bool) else a
-                return wrap(z3.If(c, lift(a), lift(b)))
-            except (TypeError, z3.Z3Exception):
-                pass
+            r = self.models.merge_values(c, a, b)
+            if r is not NotImplemented:
+                return r
             self.unsupported(node, "spec-mode conditional with non-scalar arms")
         if self.ctx.branch(c):
             return self.eval(node.body, frame)
